@@ -679,4 +679,45 @@ example : (run (St.init 2 false) subIdInUse).1.core.mgr.sizes = (2, 1, 0, 0) ∧
     (run (St.init 2 false) (subIdInUse ++ [.recv tCloseS])).1.core.mgr.sizes = (0, 0, 0, 0) ∧
     quiescentB (run (St.init 2 false) (subIdInUse ++ [.recv tCloseS])).1 (run (St.init 2 false) (subIdInUse ++ [.recv tCloseS])).2 = true := by decide
 
+/-! ### C18.6 — between the unsubscribe request and its acknowledgement the subscription id is free -/
+
+/-- `RequestManager::unsubscribe` removes the reverse mapping subscription id → request id **at once**, not on the
+acknowledgement of the unsubscribe call (seeded mutant C09-R7 kept it until then). -/
+theorem c18_unsubscribed_id_free_at_once (m m' : Mgr) (rid uid : Id) (s : SubId) (c : ChanId) (um : Text)
+    (h : m.unsubscribe rid s = some (m', uid, c, um)) : alookup s m'.subs = none := by
+  unfold Mgr.unsubscribe at h
+  split at h
+  · simp only [Option.some.injEq, Prod.mk.injEq] at h
+    obtain ⟨hm, _, _, _⟩ := h
+    rw [← hm, (markUnsubscribing_others _ _ _ _).1]
+    exact alookup_aerase_self _ _
+  · simp at h
+
+/-- Hence whatever the server still says about that id before it answers the unsubscribe call finds nothing: its close
+notification changes nothing (in particular the `expect` of `process_subscription_close_response` is not reached),
+a notification in flight is dropped without effect, and the id may be handed out again. -/
+theorem c18_unsubscribing_id_is_silent (st : Core) (s : SubId) (h : alookup s st.mgr.subs = none) :
+    processSubscriptionClose st s = st ∧
+    (∀ p, processSubscriptionResponse st s p = (st, [])) ∧
+    (∀ sid uid c um, alookup sid st.mgr.requests = none →
+      (st.mgr.insertSubscription sid uid s c um).isSome = true) := by
+  refine ⟨?_, ?_, ?_⟩
+  · unfold processSubscriptionClose Mgr.getRequestIdBySubscriptionId; rw [h]
+  · intro p; unfold processSubscriptionResponse Mgr.getRequestIdBySubscriptionId; rw [h]
+  · intro sid uid c um hv
+    unfold Mgr.insertSubscription
+    simp [hv, h]
+
+/-- subscribe accepted with "S", explicit unsubscribe; before the acknowledgement: the close notification for "S",
+then a new subscribe accepted with "S" again -/
+def betweenUnsubAndAck : List Step :=
+  [.newSubscribe tSubM tUnsubM, .sendTask 0, .recv tAccept0, .unsubscribeStream 0, .sendTask 0, .recv tCloseS,
+   .newSubscribe tSubM tUnsubM, .sendTask 0, .recv tAccept2S]
+
+example : (run (St.init 2 false) (betweenUnsubAndAck.take 6)).1.core.mgr.sizes = (2, 0, 0, 0) ∧
+    (step (run (St.init 2 false) (betweenUnsubAndAck.take 5)).1 (.recv tCloseS)).fatal = none ∧
+    (run (St.init 2 false) betweenUnsubAndAck).1.core.mgr.sizes = (4, 1, 0, 0) ∧
+    (run (St.init 2 false) (betweenUnsubAndAck ++ [.recv tAck1])).1.core.mgr.sizes = (2, 1, 0, 0) ∧
+    (run (St.init 2 false) (betweenUnsubAndAck ++ [.recv tAck1, .recv tCloseS])).1.core.mgr.sizes = (0, 0, 0, 0) := by decide
+
 end Jrpc.Client
